@@ -136,6 +136,21 @@ def run(rep, model, tier, seed):
     nrand = 300 if tier == "quick" else 6000
     rnd = [[r.choice(extra) for _ in range(r.randrange(3, 31))] for _ in range(nrand)]
     R.check_cases(rep, model, rnd, "random", [True], [0], make_rf24, Checker, nontrivial)
+    # role cycles: what a ping-pong application does -- (re)open the TX pipe, listen, stop listening, again and again
+    addrs = [A, B, C, S3, S2, b"\xe7" * 5]
+    cyc = []
+    for _ in range(250 if tier == "quick" else 5000):
+        seq = []
+        for _ in range(r.randrange(2, 5)):
+            if r.random() < 0.4:
+                seq.append(("open_rx_pipe", 0, r.choice(addrs)) if r.random() < 0.8 else ("close_rx_pipe", 0))
+            if r.random() < 0.8:
+                seq.append(("open_tx_pipe", r.choice(addrs)))
+            if r.random() < 0.15:
+                seq.append(r.choice(extra))
+            seq += [("listen=", True), ("listen=", False)] if r.random() < 0.85 else [("listen=", True)]
+        cyc.append(seq)
+    R.check_cases(rep, model, cyc, "role-cycles", [True], [0], make_rf24, Checker, nontrivial)
     rep.extra["also_sampled_only"] = True
 
 
